@@ -993,6 +993,106 @@ def oracle_partial(kind, hist, v0, forms, stats=None):
     return bad
 
 
+# --------------------------------------------------------------------------
+# oracle-only family: ONE observer object (or one set of callbacks) subscribed several times
+# --------------------------------------------------------------------------
+
+def run_shared(kind, script, v0, shared, form):
+    """script: [["sub", i] | ["unsub", i] | ["next", vid] | ["done"] | ["err", code]].
+    shared=True: every subscription slot uses the SAME observer object / the same three callbacks;
+    shared=False: one recorder per slot.  -> the sequence of notifications received, in delivery order
+    (slot identity dropped), plus what the calls raised."""
+    import reactivex
+    log, raised = [], []
+    s = make_subject(kind, v0)
+
+    class Rec(reactivex.Observer):
+        def __init__(self):
+            # no super().__init__: a bare ObserverBase-like object
+            pass
+
+        def on_next(self, v):
+            log.append(("N", POOL.id(v)))
+
+        def on_error(self, e):
+            log.append(("E", getattr(e, "code", repr(e))))
+
+        def on_completed(self):
+            log.append(("C",))
+
+    one = Rec()
+    subs = {}
+    for op in script:
+        try:
+            if op[0] == "sub":
+                o = one if shared else Rec()
+                if form == "object":
+                    subs[op[1]] = s.subscribe(o)
+                else:
+                    subs[op[1]] = s.subscribe(o.on_next, o.on_error, o.on_completed)
+            elif op[0] == "unsub":
+                if op[1] in subs:
+                    subs.pop(op[1]).dispose()
+            elif op[0] == "next":
+                s.on_next(POOL.val(op[1]))
+            elif op[0] == "done":
+                s.on_completed()
+            else:
+                s.on_error(make_error(op[1]))
+        except Exception as e:      # noqa: BLE001
+            raised.append((script.index(op), type(e).__name__))
+    return log, raised
+
+
+def gen_shared(rng):
+    n = rng.choice([2, 2, 3])
+    script, live = [], []
+    for i in range(n):
+        script.append(["sub", i])
+        live.append(i)
+        if rng.random() < 0.4:
+            script.append(["next", rng.randrange(0, 4)])
+    # at least one subscription -- never the only one -- is disposed before the end
+    k = rng.choice(live[1:]) if rng.random() < 0.7 else rng.choice(live)
+    script.append(["unsub", k])
+    live.remove(k)
+    for _ in range(rng.randrange(0, 3)):
+        script.append(["next", rng.randrange(0, 4)])
+        if live and rng.random() < 0.25:
+            script.append(["unsub", live.pop(rng.randrange(len(live)))])
+    script.append(rng.choice([["done"], ["done"], ["err", 11], ["err", 13]]))
+    if rng.random() < 0.3:
+        script.append(["sub", n])          # a late subscription of the same observer
+    return script
+
+
+def shared_observer_family(chk, pid, kind, title):
+    """Subscriptions are independent even when they share the observer object or its callbacks: what the shared
+    recorder receives must be, notification for notification, what separate recorders receive in the same script
+    (an unsubscription must release ITS subscription, not an equal-looking one)."""
+    n = 150 if chk.tier == "quick" else 2000
+    stats = {"cases": 0, "nontrivial": 0}
+    for i in range(n):
+        script = gen_shared(chk.rng)
+        v0 = chk.rng.randrange(0, 3)
+        form = "object" if i % 2 else "callbacks"
+        got = run_shared(kind, script, v0, True, form)
+        exp = run_shared(kind, script, v0, False, form)
+        chk.cov["evaluations"] += 2
+        stats["cases"] += 1
+        stats["nontrivial"] += len(exp[0]) >= 2
+        if got != exp:
+            chk.violation(f"{title}|shared-observer|{form}",
+                          {"class": title, "family": "shared_observer", "script": script, "initial_value_id": v0,
+                           "form": form, "received_by_the_shared_observer": repr(got),
+                           "received_by_separate_observers": repr(exp),
+                           "expected": "each subscription is independent of the others, also when they were made "
+                                       "with the same observer object / the same callbacks"},
+                          size=len(script))
+    chk.cov["shared_observer_family"] = stats
+
+
+
 def check_sync(chk, pid):
     import lib
     cfg = SYNC[pid]
@@ -1053,6 +1153,7 @@ def check_sync(chk, pid):
         if spy_log:
             chk.tie_broken("C23 anchor `value/has_value captured under lock`: AsyncSubject touches shared state "
                            "without holding its lock", spy_log[0])
+    shared_observer_family(chk, pid, kind, cfg["title"])
     # ---- partial callback forms (oracle-only: the model has no raising default handler)
     pcases, pscope = partial_cases(tier, chk.rng)
     PH = {}
@@ -1156,6 +1257,16 @@ def forms_from_json(d):
 def replay_sync(chk, pid, path):
     import json
     d = json.load(open(path))
+    if d.get("family") == "shared_observer":
+        kind = SYNC[pid]["kind"]
+        got = run_shared(kind, d["script"], d["initial_value_id"], True, d["form"])
+        exp = run_shared(kind, d["script"], d["initial_value_id"], False, d["form"])
+        print("script", d["script"], "form", d["form"])
+        print("shared observer received   ", got)
+        print("separate observers received", exp)
+        if got != exp:
+            print(f"VIOLATION property={pid} replay={path}")
+        return 1 if got != exp else 0
     if "history" not in d:
         print(json.dumps(d, indent=1))
         return 1
